@@ -467,6 +467,10 @@ class TexNode(object):
         \textit{keep me!}
         """
 
+        holder = self.parent.__holder(self.expr)
+        if holder is not None:
+            holder.remove(self.expr)
+            return
         for arg in self.parent.args:
             if self in arg.contents:
                 arg.remove(self)
@@ -588,6 +592,10 @@ class TexNode(object):
         \item Bye
         \end{itemize}
         """
+        holder = self.__holder(child.expr)
+        if holder is not None:
+            holder.insert(holder.remove(child.expr), *nodes)
+            return
         for arg in self.expr.args:
             if child.expr in arg._contents:
                 arg.insert(arg.remove(child.expr), *nodes)
@@ -608,6 +616,14 @@ class TexNode(object):
                 body = match.group()  # group() returns the full match
                 start = match.start()
                 yield Token(body, node.position + start)
+
+    def __holder(self, expr):
+        """The argument or expression of this node whose contents hold `expr`
+        itself. Expressions compare by their text, so an equal but different
+        expression elsewhere must not be mistaken for it."""
+        for holder in list(self.expr.args) + [self.expr]:
+            if any(content is expr for content in holder._contents):
+                return holder
 
     def __descendants(self):
         """Implementation for descendants, hacky workaround for __getattr__
@@ -841,6 +857,10 @@ class TexExpr(object):
         TexExpr('textbf', [])
         """
         self._assert_supports_contents()
+        for index, content in enumerate(self._contents):
+            if content is expr:  # equality is textual: prefer the object
+                del self._contents[index]
+                return index
         index = self._contents.index(expr)
         self._contents.remove(expr)
         return index
